@@ -179,6 +179,17 @@ def _tailcall(ctx):
     rw = ctx.fn(TC, "TailCallOptimization.rewrite_tailcalls")
     z = [c for c in ast.walk(rw) if isinstance(c, ast.Call) and norm(c.func) == "zip"]
     ok = len(z) == 1 and len(z[0].args) == 2 and norm(z[0].args[0]) == "arg_phis" and norm(z[0].args[1]).endswith(".arguments")
+    re_ = ctx.fn(TC, "TailCallOptimization._replace_entry")
+    loops = [l for l in ast.walk(re_) if isinstance(l, ast.For) and norm(l.iter).endswith(".arguments")]
+    okp = False
+    if len(loops) == 1:
+        l = loops[0]
+        apps = [c for c in ast.walk(l) if isinstance(c, ast.Call) and last_name(c) == "append" and norm(c.func.value) == "arg_phis"]
+        mk = [n for n in l.body if isinstance(n, ast.Assign) and isinstance(n.value, ast.Call) and norm(n.value.func) == "ir.Phi"]
+        skips = [x for x in ast.walk(l) if isinstance(x, (ast.Continue, ast.Break, ast.If))]
+        okp = len(apps) == 1 and len(mk) == 1 and not skips and apps[0]._parent in l.body
+    ctx.ob("C02.R7", TC + ":TailCallOptimization._replace_entry", "exactly one phi per parameter, in parameter order, without exception (the phis are later paired with the call's arguments by position)", okp, construct="one-phi-per-parameter",
+           node=loops[0] if loops else re_)
     ctx.ob("C02.R7", TC + ":TailCallOptimization.rewrite_tailcalls", "each argument phi receives the call's actual argument of the same position from the jumping block", ok, construct="phi-arguments", detail=norm(z[0]) if z else "")
 
 
